@@ -32,11 +32,11 @@ MANIFEST = dict(
          "[c14_stars_append, c14_stars_path], `layers-1` flattenings are exactly right for every k "
          "[c14_flatten_depth, c14_flatten_too_deep]; `_apply_for_each` applies Assign/Delete to exactly the "
          "entries, in order [c14_broadcast]; ignore_missing / missing= per entry [c14_ignore_*, "
-         "c14_missing_irrelevant]; Coalesce / default= over wildcard paths: first alternative whose part in front "
+         "c14_ignore_total, c14_missing_only_before_first_wildcard]; Coalesce / default= over wildcard paths: first alternative whose part in front "
          "of the first wildcard can be walked, an empty list is a value [c14_coalesce, "
          "c14_default_iff_unreachable]; the switch PATH_STAR: off = plain `P` steps, no list, on = wildcards, "
          "irrelevant for texts without `*` segments [c14_path_star_off_plain, c14_path_star_off_value, "
-         "c14_path_star_on, c14_path_star_irrelevant]; checker theorems c14_model_checks, c14_model_checks_read; "
+         "c14_path_star_on_counts, c14_path_star_irrelevant]; checker theorems c14_model_checks, c14_model_checks_read; "
          "per-run facts obligation by `decide` on the decision shapes regenerated from /repo's AST (canonical-form "
          "comparison: invariant under renaming, module-level constants, or-chains of isinstance, list/tuple "
          "temporaries, for/while, early returns); model tied to the code by differential execution of real glom / "
@@ -58,12 +58,14 @@ MANIFEST = dict(
 RULE = ('type-directed: a target is generated as a heap graph of dict / OrderedDict / list / tuple / set / '
         'frozenset / attribute objects and their subclasses (with and without __dict__), containers whose '
         'element access raises (RDict.__getitem__, RList.__iter__, RObj.__getattribute__), shared iterators (It), '
-        'user container types registered on a Glommer (reversed iterate / iterate=False), strings and other '
+        'user container types registered on a Glommer (reversed iterate / iterate=False), objects with `__slots__` only, '
+        'mappingproxy, UserDict, strings and other '
         'immediate values, with shared sub-objects (DAG) and back edges (cycles, also through the root); a '
         'path with 0-3 wildcards (`*` / `**`) at every position among 0-3 plain segments is derived by walking '
         'the graph (mostly valid; absent keys, non-numeric indexes, `bad` names planted), spelled as dotted '
         'text, Path(...) with T.__star__() / T.__starstar__() parts, a mixture with T steps, nested Path '
-        'arguments, or one T chain; method calls with an effect (pop / append / __next__, also failing ones) at '
+        'arguments, or one T chain; method calls with an effect (pop / append / __next__ / a raising callee) and arithmetic '
+        'steps (T + n: a PathAccessError on every entry that is no number) at '
         'random positions of reads; 15% of all cases spell the same path from S with the data as a scope variable '
         'and are held against the T-rooted evaluation of the same data; 22% of the cases are Assign / Delete '
         'through the wildcards (final step as plain segment, T[..] or T.attr; ignore_missing / missing= set or '
@@ -76,15 +78,32 @@ RULE = ('type-directed: a target is generated as a heap graph of dict / OrderedD
         'self-containing list, shared children, strings, sets, user types; thorough tier: exhaustively all 4096 '
         'object graphs on three two-slot lists x 10 paths (wildcards alone, nested, with calls). entries are compared by address, '
         'scalars by value, result lists by identity; a 3 s alarm turns a hang into a reported case. non-trivial = '
-        'the path has a wildcard and does not fail before it, or the switch is off, or a Coalesce / default case; '
+        'the path has a wildcard and does not fail before it, or the switch is off, or a Coalesce / default case; 12% of the '
+        'cases run after a history of non-raising registry lookups (get_handler(op, obj, raise_exc=False)) for objects '
+        'of the target; cases outside the model are counted per reason (branch outside:<reason>), never non-trivial; '
         'distinct = distinct (heap, target, spelling, mutation, switch, alternatives)')
 TRUSTED = ['handler choice of the registry per class is an environment function validated on every case '
            '(C13 proves the registry)', 'set iteration order is observed, not modelled',
            'list.pop / list.append / dict.pop / It.__next__ as modelled (validated on every case)']
-ASSUMPTIONS = ['default registry + three user registrations on a Glommer (iterate handlers)',
+ASSUMPTIONS = ['READING (entries for which the steps fail are dropped): "fail" = the step raises PathAccessError — '
+               'attribute / item / plain-segment access and arithmetic failures are PathAccessErrors and drop the entry; '
+               'an exception raised BY a called function keeps its class (a PathAccessError of the callee\'s own drops '
+               'the entry, anything else — other GlomErrors included — ends the evaluation)',
+               'READING (always terminates): the quantifier is over finite object graphs whose accessors create no '
+               'objects; a target with a fresh-child accessor (class Inf) is run with a short budget and counted '
+               'under outside:fresh-child-accessor:*, never judged',
+               'READING (one entry per child): mapping = dict / OrderedDict (and subclasses) and registered types — '
+               'their values; attribute values = those of the `__dict__`; any other iterable — its items. So an object '
+               'with `__slots__` only has no children, a mappingproxy yields its KEYS, a UserDict its attribute `data`; '
+               'bytes / str have none (the model states what glom does for these)',
+               'the per-entry effect of Assign / Delete (assignOp / delOp) and of method calls (callStep) is the '
+               'model\'s own copy of Python\'s part — the primitives C11 / C12 model and prove; C14 validates its copy '
+               'on every case and proves the broadcast over the entries',
+               'default registry + three user registrations on a Glommer (iterate handlers)',
                'assigned values and call arguments are immediate values',
                'Assign(missing=) whose path fails BEFORE its first wildcard is skipped (the backfill is C11)',
-               'set.pop() and Assign / Delete on user-registered types are skipped',
+               'set.pop(), UserDict.pop() and Assign / Delete on user-registered / catalogue types (Slot, mappingproxy, '
+               'UserDict) are outside the model: counted in the histogram under outside:<reason>',
                'Coalesce with the default skip / skip_exc, over call-free paths']
 
 
@@ -172,6 +191,26 @@ def user_glommer():
     return g
 
 
+class Slot:
+    """an object with `__slots__` only: attributes, but no `__dict__` (and not iterable)"""
+    __slots__ = ('a', 'b', 'k', 'bad1')
+
+
+class Inf(dict):
+    """OUTSIDE the reading of "always terminates": a mapping whose element access CREATES an object — every
+    `d[k]` is a new Inf with the same keys, so the object graph below it is infinite"""
+    def __getitem__(self, k):
+        dict.__getitem__(self, k)
+        return Inf(self)
+
+
+import collections as _collections
+import types as _types
+UserDict = _collections.UserDict
+MappingProxy = _types.MappingProxyType      # __name__ == 'mappingproxy'
+SLOT_NAMES = list(Slot.__slots__)
+
+
 class Unmodelled(BaseException):
     """raised by a harness class when it is used outside the behaviour the model describes (the case is
     skipped); a BaseException so that no `except Exception` of glom can swallow it"""
@@ -244,7 +283,8 @@ for _c in (DSub, RDict):
 for _c in (It, LSub, DSub):
     _c.fail = _fail
 
-EXTRA = [RDict, RList, RObj, LSub, SList, DSub, TSub, TDict, SSub, It, RevList, RevTuple, NoIterList]
+EXTRA = [RDict, RList, RObj, LSub, SList, DSub, TSub, TDict, SSub, It, RevList, RevTuple, NoIterList, Slot, Inf,
+         UserDict]
 for _c in EXTRA:
     pyobjs.CLASSES.setdefault(_c.__name__, _c)
     if issubclass(_c, dict):
@@ -258,8 +298,15 @@ for _c in EXTRA:
     else:
         pyobjs.LAYOUT.setdefault(_c.__name__, 'inst')
 
+# a mapping type that is neither a dict nor registered as a mapping: the cell layout of a dict
+pyobjs.CLASSES.setdefault('mappingproxy', MappingProxy)
+pyobjs.LAYOUT.setdefault('mappingproxy', 'dict')
+pyobjs.LAYOUT['UserDict'] = 'inst'          # an attribute object: its entries are in the attribute `data`
+
 USED = ['dict', 'OrderedDict', 'list', 'tuple', 'set', 'frozenset', 'Obj', 'Obj2',
-        'RDict', 'RList', 'RObj', 'LSub', 'SList', 'DSub', 'TSub', 'TDict', 'SSub', 'It', 'RevList', 'RevTuple', 'NoIterList']
+        'RDict', 'RList', 'RObj', 'LSub', 'SList', 'DSub', 'TSub', 'TDict', 'SSub', 'It', 'RevList', 'RevTuple', 'NoIterList',
+        'Slot', 'UserDict', 'mappingproxy']
+CATALOGUE = ('Slot', 'UserDict', 'mappingproxy')      # no Assign / Delete cases on these (C11 / C12)
 
 
 def class_info():
@@ -268,6 +315,8 @@ def class_info():
         c = pyobjs.CLASSES[n]
         if issubclass(c, tuple):
             x = c(())
+        elif c is MappingProxy:
+            x = c({})
         else:
             x = c.__new__(c)
         out.append([n, {'mro': [k.__name__ for k in c.__mro__],
@@ -332,6 +381,8 @@ class HeapGen:
         lay = r.choice(['dict', 'dict', 'list', 'list', 'tuple', 'inst', 'set'])
         if lay == 'inst' and r.random() < 0.25:
             return self.iterator(depth)
+        if self.user and r.random() < 0.3:
+            return self.catalogue(depth)
         a = len(self.heap)
         cell = {'k': lay, 'c': self.cls(lay), 'v': []}
         self.heap.append(cell)
@@ -384,6 +435,44 @@ def _iterator(self, depth):
 
 
 HeapGen.iterator = _iterator
+
+
+def _catalogue(self, depth):
+    """what glom does with kinds of objects the property text does not name: an object with `__slots__` only
+    (no `__dict__`: no children), a mappingproxy (a mapping that is not registered as one: iterated, it yields its
+    KEYS), a UserDict (an attribute object: its one child is the dict `data`)"""
+    r = self.rng
+    kind = r.choice(['Slot', 'mappingproxy', 'UserDict'])
+    a = len(self.heap)
+    if kind == 'Slot':
+        cell = {'k': 'inst', 'c': 'Slot', 'v': []}
+        self.heap.append(cell)
+        self.open_mut.append(a)
+        names = [n for n in SLOT_NAMES if r.random() < 0.5]        # in the order of __slots__
+        cell['v'] = [[n, self.node(depth + 1)] for n in names]
+        self.open_mut.pop()
+    elif kind == 'mappingproxy':
+        cell = {'k': 'dict', 'c': 'mappingproxy', 'v': []}
+        self.heap.append(cell)
+        keys = r.sample(NAMES + [0, 1, 'z'], r.choice([0, 1, 2, 3]))
+        cell['v'] = [[jval(k), self.node(depth + 1)] for k in keys]
+    else:
+        cell = {'k': 'inst', 'c': 'UserDict', 'v': []}
+        self.heap.append(cell)
+        b = len(self.heap)
+        data = {'k': 'dict', 'c': r.choice(['dict', 'dict', 'OrderedDict', 'DSub']), 'v': []}
+        self.heap.append(data)
+        self.open_mut.append(b)
+        keys = r.sample(NAMES + [0, 'z'], r.choice([0, 1, 2]))
+        data['v'] = [[jval(k), self.node(depth + 1)] for k in keys]
+        self.open_mut.pop()
+        self.closed.append(b)
+        cell['v'] = [['data', {'r': b}]]
+    self.closed.append(a)
+    return {'r': a}
+
+
+HeapGen.catalogue = _catalogue
 
 
 def gen_target(rng, quirky, user=False):
@@ -477,6 +566,9 @@ def spell(rng, steps, style):
         elif st[0] == 'call':
             # a method call: the ops `.` name, `(` arguments of one T expression
             parts.append({'t': [['.', {'s': st[1]}], ['(', list(st[2])]]})
+        elif st[0] == 'arith':
+            # an arithmetic step: T + n (a failing one — a string, a container + n — is a PathAccessError)
+            parts.append({'t': [['+', {'i': st[1]}]]})
         else:
             kind, key = st[1], st[2]
             if style == 'path' or rng.random() < 0.5:
@@ -519,6 +611,9 @@ def gen_case(rng, quirk_rate):
         # a step with an effect (a method call) at a random position of a read
         for _ in range(rng.choice([1, 1, 2])):
             steps.insert(rng.randrange(len(steps) + 1), rng.choice(CALLS))
+    if m >= 0.22 and rng.random() < 0.15:
+        # an arithmetic step (mostly behind the wildcards: it fails on every entry that is no number)
+        steps.insert(rng.choice([len(steps), len(steps), rng.randrange(len(steps) + 1)]), ('arith', rng.choice([1, 1, 10, -1])))
     if m < 0.22:
         # Assign / Delete through the wildcards: the path ends in a plain segment
         key = rng.choice([{'s': 'k'}, {'s': 'a'}, {'s': '0'}, {'i': 0}, {'s': 'zz'}])
@@ -528,7 +623,7 @@ def gen_case(rng, quirk_rate):
             mut = {'kind': 'assign', 'val': val, 'missing': rng.choice([None, None, 'dict', 'list'])}
         else:
             mut = {'kind': 'delete', 'ignore': rng.random() < 0.5}
-    can_text = all(st[0] != 'call' and (st[0] != 'seg' or text_ok(st[2])) for st in steps) and steps
+    can_text = all(st[0] not in ('call', 'arith') and (st[0] != 'seg' or text_ok(st[2])) for st in steps) and steps
     styles = ['path', 'mixed', 'tchain', 'nested'] + (['text', 'text', 'text'] if can_text else [])
     style = rng.choice(styles)
     # (the final step of a mutation path is spelled like any other: plain segment, T[...] or T.attr)
@@ -645,7 +740,7 @@ def shared_cases(rng, n):
             # (b) a call with an effect, maybe behind a segment, maybe followed by more steps
             if rng.random() < 0.25:
                 steps.append(('seg', 'key', rng.choice([{'s': 'elems'}, {'s': 'k'}, {'i': 0}, {'s': 'a'}])))
-            steps.append(rng.choice(CALLS))
+            steps.append(rng.choice(CALLS + [('arith', 1), ('arith', 1), ('arith', 5)]))
             f = rng.random()
             if f < 0.15:
                 steps.append(rng.choice([('x',), ('X',)]))
@@ -658,7 +753,7 @@ def shared_cases(rng, n):
             steps.insert(rng.randrange(len(steps)), rng.choice(CALLS))
             steps.append(rng.choice(CALLS + [('x',)]))
         style = rng.choice(['path', 'mixed', 'mixed', 'tchain', 'tchain'])
-        if all(st[0] != 'call' and (st[0] != 'seg' or text_ok(st[2])) for st in steps) and rng.random() < 0.4:
+        if all(st[0] not in ('call', 'arith') and (st[0] != 'seg' or text_ok(st[2])) for st in steps) and rng.random() < 0.4:
             style = 'text'
         yield {'heap': heap, 'target': root, 'spelling': spell(rng, steps, style), 'mut': None}
 
@@ -776,6 +871,30 @@ def exhaustive_cases():
             yield {'heap': heap, 'target': {'r': 0}, 'spelling': sp, 'mut': None}
 
 
+def with_pre(rng, case):
+    """the same case after a history of registry lookups that do not raise (`get_handler(op, obj,
+    raise_exc=False)`) for some objects of the target"""
+    if not case['heap']:
+        return case
+    c = dict(case)
+    ops = ['keys', 'get', 'iterate'] + (['assign', 'delete'] if case.get('mut') else [])
+    c['pre'] = [[rng.choice(ops), rng.randrange(len(case['heap']))] for _ in range(rng.choice([1, 2, 3, 5]))]
+    return c
+
+
+def fresh_child_cases(rng, n):
+    """OUTSIDE the reading of "always terminates" (finite object graphs whose accessors create no objects): a
+    mapping whose `__getitem__` returns a NEW mapping each time.  Run with a short budget; the outcome (returned /
+    no return within the budget) is counted, never judged"""
+    for _ in range(n):
+        heap = [{'k': 'dict', 'c': 'Inf', 'v': [[{'s': 'a'}, {'i': 1}]] + ([[{'s': 'b'}, {'i': 2}]] if rng.random() < 0.5 else [])}]
+        root = {'r': 0}
+        if rng.random() < 0.5:
+            heap.append({'k': 'list', 'c': 'list', 'v': [{'r': 0}, {'i': 7}]})
+            root = {'r': 1}
+        yield {'heap': heap, 'target': root, 'spelling': {'text': rng.choice(['**', '**', '*', '*.*', '**.a'])}, 'mut': None}
+
+
 def fixed_cases():
     """shapes named in the property: cyclic roots, shared children, strings, sets"""
     out = []
@@ -820,6 +939,18 @@ def fixed_cases():
             {'k': 'tuple', 'c': 'RevTuple', 'v': [{'s': 'a'}, {'s': 'b'}]}]
     for t in ('*', '**', '*.*', '*.0', '**.*', '1.*', '1.**'):
         out.append({'heap': user, 'target': {'r': 0}, 'spelling': {'text': t}, 'mut': None})
+    # kinds of objects the property text does not name — what glom does with them (reading, DESIGN §6):
+    # `__slots__` only: no children; mappingproxy: its KEYS; UserDict: its one attribute `data`
+    cat = [{'k': 'list', 'c': 'list', 'v': [{'r': 1}, {'r': 2}, {'r': 3}, {'s': 'x'}, {'i': 4}]},
+           {'k': 'inst', 'c': 'Slot', 'v': [['a', {'i': 1}], ['k', {'i': 2}]]},
+           {'k': 'dict', 'c': 'mappingproxy', 'v': [[{'s': 'a'}, {'i': 5}], [{'s': 'k'}, {'r': 1}]]},
+           {'k': 'inst', 'c': 'UserDict', 'v': [['data', {'r': 4}]]},
+           {'k': 'dict', 'c': 'dict', 'v': [[{'s': 'a'}, {'i': 9}], [{'s': 'k'}, {'i': 8}]]}]
+    for t in ('*', '**', '*.*', '*.a', '*.data.a', '**.k'):
+        out.append({'heap': cat, 'target': {'r': 0}, 'spelling': {'text': t}, 'mut': None})
+    for ops in ([['x', None], ['[', {'s': 'a'}]], [['x', None], ['.', {'s': 'a'}]], [['x', None], ['+', {'i': 1}]],
+                [['X', None], ['+', {'i': 1}]]):
+        out.append({'heap': cat, 'target': {'r': 0}, 'spelling': {'parts': [{'t': ops}]}, 'mut': None})
     out.append({'heap': nested, 'target': {'r': 0}, 'spelling': {'text': '*.*.k'}, 'mut': None})
     out.append({'heap': nested, 'target': {'r': 0}, 'spelling': {'text': '*.*.k'},
                 'mut': {'kind': 'assign', 'val': {'i': 9}}})
@@ -967,18 +1098,26 @@ def generate(rng, tier, scale, **focus):
         has_steps = bool(c.get('spelling') and (c['spelling'].get('text') or c['spelling'].get('parts')))
         return with_sroot(rng, c) if has_steps and rng.random() < sp else c
 
+    pre_p = focus.get('pre_p', 0.12)
+
+    def maybe_pre(c):
+        return with_pre(rng, c) if rng.random() < pre_p else c
+
     for c in fixed_cases():
         yield c
         if c['spelling'].get('text'):
             yield with_sroot(rng, c)
+            yield with_pre(rng, c)
+    for c in fresh_child_cases(rng, 6 if tier == 'quick' else 12):
+        yield c
     for _ in range(n):
-        yield maybe_s(gen_case(rng, focus.get('quirk_rate', 0.0)))
+        yield maybe_pre(maybe_s(gen_case(rng, focus.get('quirk_rate', 0.0))))
     for c in wide_cases(rng, (60 if tier == 'quick' else 1500) * scale):
         yield maybe_s(c)
     for c in ragged_cases(rng, (260 if tier == 'quick' else 6000) * scale):
-        yield maybe_s(c)
+        yield maybe_pre(maybe_s(c))
     for c in shared_cases(rng, (420 if tier == 'quick' else 9000) * scale):
-        yield maybe_s(c)
+        yield maybe_pre(maybe_s(c))
     if tier != 'quick' and not focus:
         for c in exhaustive_cases():
             yield c
@@ -1061,6 +1200,8 @@ def build_spec(sp, dv, sroot=None):
             return t.__(name[2:]) if name.startswith('__') else getattr(t, name)
         if op == '(':
             return t(*[dv(a) for a in arg])
+        if op == '+':
+            return t + dv(arg)
         return t[dv(arg)]
 
     if 'text' in sp and not sroot:
@@ -1097,11 +1238,107 @@ def build_spec(sp, dv, sroot=None):
     return Path(*parts), nw
 
 
+def decode2(heap):
+    """pyobjs.decode plus the catalogue classes: objects with `__slots__` (attributes set with setattr),
+    mappingproxy (a view of a hidden dict that is filled like a dict cell)"""
+    if not any(cell['c'] in ('Slot', 'mappingproxy') for cell in heap):
+        return pyobjs.decode(heap)
+    return _decode_all(heap)
+
+
+def _decode_all(heap):
+    objs = [None] * len(heap)
+    hidden = {}
+    pending = []
+    for a, cell in enumerate(heap):
+        cls, lay = pyobjs.CLASSES[cell['c']], cell['k']
+        if cell['c'] == 'mappingproxy':
+            hidden[a] = {}
+            objs[a] = MappingProxy(hidden[a])
+        elif cell['c'] == 'Slot':
+            objs[a] = Slot()
+        elif lay in ('dict', 'list', 'inst') or (lay == 'set' and cls is set):
+            objs[a] = OrderedDict() if cls is OrderedDict else cls.__new__(cls)
+        else:
+            pending.append(a)
+    building = set()
+
+    def dv(j):
+        if j is None:
+            return None
+        for k in ('b', 'i', 's'):
+            if k in j:
+                return j[k]
+        if 'f' in j:
+            return float.fromhex(j['f'])
+        if 'r' in j:
+            a = j['r']
+            if objs[a] is None:
+                build(a)
+            return objs[a]
+        raise ValueError('cannot decode %r' % (j,))
+
+    def build(a):
+        if a in building:
+            raise ValueError('cycle through immutable container at %d' % a)
+        building.add(a)
+        cell = heap[a]
+        objs[a] = pyobjs.CLASSES[cell['c']]([dv(x) for x in cell['v']])
+        building.discard(a)
+
+    for a in pending:
+        if objs[a] is None:
+            build(a)
+    for a, cell in enumerate(heap):
+        lay, o = cell['k'], objs[a]
+        if cell['c'] == 'mappingproxy':
+            for k, v in cell['v']:
+                hidden[a][dv(k)] = dv(v)
+        elif cell['c'] == 'Slot':
+            for k, v in cell['v']:
+                object.__setattr__(o, k, dv(v))
+        elif lay == 'dict':
+            setitem = OrderedDict.__setitem__ if isinstance(o, OrderedDict) else dict.__setitem__
+            for k, v in cell['v']:
+                setitem(o, dv(k), dv(v))
+        elif lay == 'list':
+            list.extend(o, [dv(x) for x in cell['v']])
+        elif lay == 'set' and isinstance(o, set):
+            for x in cell['v']:
+                o.add(dv(x))
+        elif lay == 'inst':
+            d = object.__getattribute__(o, '__dict__')
+            for k, v in cell['v']:
+                d[k] = dv(v)
+    return objs, dv
+
+
+def normalise(case):
+    """every field the driver reads, spelled out (the driver decodes strictly: a missing field is an error)"""
+    c = dict(case)
+    c.setdefault('sroot', None)
+    c.setdefault('co', None)
+    c.setdefault('path_star', True)
+    c.setdefault('pre', [])
+    mut = c.get('mut')
+    if mut:
+        mut = dict(mut)
+        if mut['kind'] == 'assign':
+            mut.setdefault('missing', None)
+        else:
+            mut['ignore'] = bool(mut.get('ignore', False))
+        c['mut'] = mut
+    else:
+        c['mut'] = None
+    return c
+
+
 def run_impl(case):
+    case = normalise(case)
     import glom
     from glom import PathAccessError
     heap = json.loads(json.dumps(case['heap']))
-    objs, dv = pyobjs.decode(heap)
+    objs, dv = decode2(heap)
     # sets iterate in an order of their own: record it in the heap the model sees
     for a, cell in enumerate(heap):
         if cell['k'] == 'set':
@@ -1114,7 +1351,7 @@ def run_impl(case):
         out = dict(case)
         out['heap'] = heap
         out['classes'] = class_info()
-        out['impl'] = 'skip'
+        out['impl'] = {'outside': 'interned-empty-containers'}
         return out
     target = dv(case['target'])
     sroot = case.get('sroot')
@@ -1182,7 +1419,12 @@ def _run(case, heap, objs, dv, ids, target, sroot):
             cn = type(o).__name__
             lay = heap[a]['k']
             ev = lambda x: pyobjs.enc_val(x, addr_of)
-            if lay == 'dict':
+            if cn == 'mappingproxy':
+                out.append({'k': 'dict', 'c': cn, 'v': [[ev(k), ev(x)] for k, x in o.items()]})
+            elif cn == 'Slot':
+                out.append({'k': 'inst', 'c': cn, 'v': [[k, ev(object.__getattribute__(o, k))] for k in SLOT_NAMES
+                                                        if hasattr(o, k)]})
+            elif lay == 'dict':
                 out.append({'k': 'dict', 'c': cn, 'v': [[ev(k), ev(x)] for k, x in dict.items(o)]})
             elif lay == 'list':
                 out.append({'k': 'list', 'c': cn, 'v': [ev(x) for x in list.__iter__(o)]})
@@ -1199,9 +1441,34 @@ def _run(case, heap, objs, dv, ids, target, sroot):
     out['heap'] = heap
     out['classes'] = class_info()
     mut = case.get('mut')
+    # the history of the registry: lookups that do not raise (`raise_exc=False`) of some (op, object) before
+    # the call — which handler a lookup finds must not depend on the lookups made before (C13)
+    if case.get('pre'):
+        from glom.core import TargetRegistry, _DEFAULT_SCOPE
+        registry = gkw['scope'][TargetRegistry] if TargetRegistry in gkw.get('scope', {}) else _DEFAULT_SCOPE[TargetRegistry]
+        for op, a in case['pre']:
+            if op in registry._op_type_map:
+                registry.get_handler(op, objs[a], raise_exc=False)
+    fresh = any(cell['c'] == 'Inf' for cell in heap)
     del CALL_LOG[:]
     old = signal.signal(signal.SIGALRM, _alarm)
-    signal.setitimer(signal.ITIMER_REAL, 3.0, 1.0)
+    # (a target with a fresh-child accessor is outside the reading: a short budget shows whether glom returns)
+    signal.setitimer(signal.ITIMER_REAL, 0.4 if fresh else 3.0, 1.0)
+    if fresh:
+        try:
+            try:
+                glom.glom(gtarget, spec, **gkw)
+                out['impl'] = {'outside': 'fresh-child-accessor:returned'}
+            except Timeout:
+                out['impl'] = {'outside': 'fresh-child-accessor:no-return-within-budget'}
+            except RecursionError:
+                out['impl'] = {'outside': 'fresh-child-accessor:no-return-within-budget'}
+            except Exception:
+                out['impl'] = {'outside': 'fresh-child-accessor:raised'}
+        finally:
+            signal.setitimer(signal.ITIMER_REAL, 0)
+            signal.signal(signal.SIGALRM, old)
+        return out
     try:
         try:
             if co:
@@ -1227,30 +1494,34 @@ def _run(case, heap, objs, dv, ids, target, sroot):
                 out['impl'] = {'read': {'out': o, 'heap': snapshot(), 'calls': calls()}}
             else:
                 err = None
+                ret = None
                 try:
                     if mut['kind'] == 'assign':
                         fac = {'dict': dict, 'list': list}.get(mut.get('missing'))
                         if sroot:
-                            glom.glom(gtarget, glom.Assign(spec, dv(mut['val']), missing=fac), **gkw)
+                            ret = glom.glom(gtarget, glom.Assign(spec, dv(mut['val']), missing=fac), **gkw)
                         else:
-                            glom.assign(target, spec, dv(mut['val']), missing=fac)
+                            ret = glom.assign(target, spec, dv(mut['val']), missing=fac)
                     elif sroot:
-                        glom.glom(gtarget, glom.Delete(spec, ignore_missing=bool(mut.get('ignore'))), **gkw)
+                        ret = glom.glom(gtarget, glom.Delete(spec, ignore_missing=bool(mut.get('ignore'))), **gkw)
                     else:
-                        glom.delete(target, spec, ignore_missing=bool(mut.get('ignore')))
-                except (PathAccessError, RecursionError):
+                        ret = glom.delete(target, spec, ignore_missing=bool(mut.get('ignore')))
+                except RecursionError:
                     raise
+                except PathAccessError:
+                    # the parent path could not be walked: the target afterwards is part of the observation
+                    out['impl'] = {'pae': snapshot()}
+                    return out
                 except Exception as e:
                     # PathAssignError / PathDeleteError / UnregisteredTarget, or what `dest[k] = v`,
                     # `setattr`, `del dest[k]` raised outside every `except` clause of glom
                     err = exc_name(e)
-                out['impl'] = {'mutated': snapshot(), 'err': err}
+                # Assign / Delete return the target they were given (an S-rooted one: the target of the call)
+                out['impl'] = {'mutated': snapshot(), 'err': err, 'same': ret is gtarget}
         except Timeout:
             out['impl'] = 'timeout'
         except Unmodelled:
-            out['impl'] = 'skip'
-        except PathAccessError:
-            out['impl'] = 'pae'
+            out['impl'] = {'outside': 'harness-class-outside-its-modelled-use'}
         except RecursionError:
             out['impl'] = 'timeout'
         except Exception as e:
@@ -1262,13 +1533,16 @@ def _run(case, heap, objs, dv, ids, target, sroot):
 
 
 def key(case):
+    case = normalise(case)
     return {'heap': case['heap'], 'target': case['target'], 'spelling': case.get('spelling'),
-            'mut': case.get('mut'), 'sroot': case.get('sroot'), 'path_star': case.get('path_star', True),
-            'co': case.get('co')}
+            'mut': case['mut'], 'sroot': case['sroot'], 'path_star': case['path_star'],
+            'co': case['co'], 'pre': case['pre']}
 
 
 def nontrivial(case, verdict):
     b = verdict.get('branch', '')
+    if b.startswith('outside:'):
+        return False
     if b.startswith('co-'):
         return True
     if 'staroff:' in b:
@@ -1287,6 +1561,10 @@ def mut_final_ok(parts):
 
 def shrink(case):
     base = {k: v for k, v in case.items() if not k.startswith('impl') and k != 'classes'}
+    for i in range(len(case.get('pre') or [])):
+        c = dict(base)
+        c['pre'] = case['pre'][:i] + case['pre'][i + 1:]
+        yield c
     if case.get('co'):
         co = case['co']
         for i in range(len(co['alts'])):
@@ -1364,6 +1642,8 @@ def _refs_in(j, out):
 def _gc(case, base):
     """the case without the heap cells nothing refers to (addresses renumbered)"""
     heap = case['heap']
+    if case.get('pre'):
+        return None          # (the history names objects by address)
     seen, todo = set(), []
     _refs_in(case['target'], todo)
     while todo:
@@ -1408,8 +1688,17 @@ def classify(case, verdict):
     return None
 
 
+def focus_changed(changed_funcs):
+    """a function of the registry changed: more cases with a history of lookups"""
+    if any('TargetRegistry' in f or 'get_handler' in f or 'register' in f for f in changed_funcs or []):
+        return {'pre_p': 0.5}
+    return {}
+
+
 def focus(disagreements, facts_changed):
     f = {}
+    if any(c.get('pre') for c, _ in disagreements):
+        f['pre_p'] = 0.5
     if any(c.get('sroot') for c, _ in disagreements) or 'C14Facts' in (facts_changed or []):
         f['s_root_p'] = 0.6
     return f
